@@ -47,6 +47,11 @@ func genClientHeaders(rng *vh.Rng) []string {
 	for k := rng.Intn(4); k > 0; k-- {
 		lines = append(lines, rng.Pick([]string{"X-Other", "Accept", "Cookie", "X-Inverting-Proxy-User", "Proxy-Authorization-X"})+": "+rng.Pick([]string{"a", "b", "text/html", "k=v"}))
 	}
+	// a client can also name headers in Connection, which makes every HTTP/1.1 intermediary on the way to the
+	// backend (here: the agent's ReverseProxy) treat them as hop-by-hop and drop them
+	if rng.Chance(15) {
+		lines = append(lines, "Connection: "+rng.Pick([]string{"X-Inverting-Proxy-User-ID", "keep-alive, x-inverting-proxy-user-id", "close", "X-Other, Authorization"}))
+	}
 	// shuffle
 	for i := len(lines) - 1; i > 0; i-- {
 		j := rng.Intn(i + 1)
